@@ -1,6 +1,6 @@
 """C14 — slot numbers are unique among concurrent tests, stable across retries, compact."""
 import vlib
-from props import common, sched
+from props import common, mix, sched
 
 THM = "NextestModel.Thm.C14"
 GEN = []
@@ -10,7 +10,7 @@ ASSUMPTIONS = ["that every attempt of a test sees the same FutureQueueContext (c
 KINDS = ("slot-unique", "slot-least", "slot-bound", "group-slot")
 
 
-def run(seed, tier, replay=None):
+def run_p(seed, tier, replay=None):
     r, items, model = sched.run_sched(seed, tier)
     violations = []
     nt = set()
@@ -38,5 +38,9 @@ def run(seed, tier, replay=None):
         "samples": samples, "traces": len(items), "dist": r.dist,
         "violations": violations, "broken": r.broken, "impl_failures": r.impl_failures,
     }
+
+
+def run(seed, tier, replay=None):
+    return mix.merge(run_p(seed, tier, replay), mix.check([mix.mon_concurrency], seed, tier))
 
 KNOWN_MATCHERS = {}
